@@ -388,3 +388,16 @@ package graphsync
 //@   ensures [hooks-4] old(t.events) == nil ==> calls(GraphExchange.RegisterIncomingResponseHook) == 1 && all(GraphExchange.RegisterIncomingResponseHook, ismethod($1, t, gsIncomingResponseHook)) && calls(GraphExchange.RegisterRequestUpdatedHook) == 1 && all(GraphExchange.RegisterRequestUpdatedHook, ismethod($1, t, gsRequestUpdatedHook))
 //@   ensures [hooks-5] old(t.events) == nil ==> calls(GraphExchange.RegisterRequestorCancelledListener) == 1 && all(GraphExchange.RegisterRequestorCancelledListener, ismethod($1, t, gsRequestorCancelledListener)) && calls(GraphExchange.RegisterNetworkErrorListener) == 1 && all(GraphExchange.RegisterNetworkErrorListener, ismethod($1, t, gsNetworkSendErrorListener))
 //@   ensures [hooks-6] old(t.events) == nil ==> calls(GraphExchange.RegisterReceiverNetworkErrorListener) == 1 && all(GraphExchange.RegisterReceiverNetworkErrorListener, ismethod($1, t, gsNetworkReceiveErrorListener))
+
+// constructors establish what every other function assumes of its receiver (valid[...] obligations)
+//@ func graphsync.newRequestIDToChannelIDMap {C16,C20}
+//@   pure
+//@   constructor
+//@ func (*graphsync.Transport).newDTChannel {C16,C20}
+//@   pure
+//@   constructor
+//@   ensures [for-this-channel] (*result).channelID == chid && (*result).t == t
+//@ func graphsync.NewTransport {C16,C20}
+//@   constructor
+//@   requires gs != nil && len(options) == 0 -- options are application input: assumed to keep the object valid (SupportedExtensions: only known names)
+//@   loop 0 invariant [no-options] $i == 0
